@@ -18,7 +18,7 @@ tvars == <<vars, tid, l, ok>>
 
 Traces == JsonDeserialize(IOEnv.TRACE_FILE)
 BigCap32 == <<1073741823, 3>>     \* 2^32 - 1 in base-2^30 digits
-TSlots == 1..4
+TSlots == 1..(CHOOSE m \in 1..64 : (\A i \in 1..Len(Traces) : Traces[i].NS <= m) /\ (m = 1 \/ \E i \in 1..Len(Traces) : Traces[i].NS = m))   \* as many slots as the largest trace of the batch uses
 
 TraceEnv(t) ==
   [W |-> t.W, D |-> t.D,
